@@ -274,6 +274,7 @@ func (e *Env) RCursor(withFileOrder bool) {
 	e.Run.Floor("R-CURSOR", "comment list stores", nComments, 2)
 	e.lineBreaksAdvance(c)
 	e.RInnerLineStarts()
+	e.RRawLiteralMark()
 	e.RSearchLoops(e.pkgs(load.PkgDecorator))
 	if withFileOrder {
 		e.restoreFileOrder(c)
@@ -2340,4 +2341,48 @@ func (e *Env) RInnerLineStarts() {
 		})
 	}
 	e.Run.Analysed("R-CURSOR line starts recorded inside texts", n)
+}
+
+// RRawLiteralMark (R-CURSOR): the position right behind a raw string literal that spans lines is
+// remembered when the literal is rendered (the comment-field rule of the line-state machine reads
+// it): a store `r.rawLiteralEnd = <cursor> + <length of the text>` in the function that records
+// the literal's inner line starts.
+func (e *Env) RRawLiteralMark() {
+	pkg := e.Prog.Pkg(load.PkgDecorator)
+	info := pkg.TypesInfo
+	n := 0
+	at := ""
+	for _, fd := range load.AllFuncDecls(pkg) {
+		if fd.Body == nil || !isRestorePath(fd) {
+			continue
+		}
+		ast.Inspect(fd.Body, func(nd ast.Node) bool {
+			as, ok := nd.(*ast.AssignStmt)
+			if !ok || len(as.Lhs) != 1 || len(as.Rhs) != 1 || !e.isRestorerField(info, ast.Unparen(as.Lhs[0]), "rawLiteralEnd") {
+				return true
+			}
+			if tv, ok := info.Types[as.Rhs[0]]; ok && tv.Value != nil {
+				return true // the reset
+			}
+			hasCur, hasLen := false, false
+			ast.Inspect(as.Rhs[0], func(m ast.Node) bool {
+				if ex, ok := m.(ast.Expr); ok && e.isRestorerField(info, ex, "cursor") {
+					hasCur = true
+				}
+				if call, ok := m.(*ast.CallExpr); ok {
+					if id, ok := call.Fun.(*ast.Ident); ok && id.Name == "len" {
+						hasLen = true
+					}
+				}
+				return true
+			})
+			if hasCur && hasLen {
+				n++
+				at = e.Prog.Pos(as.Pos())
+			}
+			return true
+		})
+	}
+	e.Run.Check("R-CURSOR", "the end of a multi-line raw string literal is remembered when it is rendered", at, n > 0,
+		"no store `r.rawLiteralEnd = r.cursor + token.Pos(len(text))`: the restorer cannot tell that a comment sits behind a literal that began on an earlier line, and puts it into the node's Comment field, which go/parser does not (go/printer then aligns it with an extra cell)")
 }
